@@ -664,6 +664,9 @@ type_get_hints_base(uint32_t hints)
         return LY_BASE_OCT;
     case LYD_VALHINT_HEXNUM:
         return LY_BASE_HEX;
+    case 0:
+        /* no number hint at all (a 64-bit integer carried by a JSON string), only the YANG decimal lexical form */
+        return LY_BASE_DEC;
     default:
         /* generic base - decimal by default, hexa if prexed by 0x/0X and octal otherwise if prefixed by 0 */
         return 0;
